@@ -22,6 +22,9 @@ func typeErrorf(format string, a ...any) TypeError {
 
 var timeType = reflect.TypeOf(time.Now())
 
+// maxRangeArrayLen is the longest range (a..b) that is turned into an array for a filter.
+const maxRangeArrayLen = 1<<31 - 1
+
 func conversionError(modifier string, value any, typ reflect.Type) error {
 	if modifier != "" {
 		modifier += " "
@@ -260,6 +263,10 @@ func Convert(value any, typ reflect.Type) (any, error) { //nolint: gocyclo
 			}
 			return result.Interface(), nil
 		} else if r, ok := value.(Range); ok {
+			if r.Len() > maxRangeArrayLen {
+				// make() panics on such a length; no machine could hold the array anyway
+				return nil, conversionError("over-long", value, typ)
+			}
 			return r.AsArray(), nil
 		}
 		switch rv.Kind() {
